@@ -2084,7 +2084,7 @@ def _(c, which, opts=None, on="ts"):
 
 @op("big.ibd", [("which", "raw"), ("opts", "raw")])
 def _(c, which, opts=None):
-    smp = _pick(c.ts.samples(), which)
+    smp = _pick(c.ts.samples(), "all" if which == "between" else which)
     if which == "between":
         r = c.ts.ibd_segments(between=[smp[::2], smp[1::2]], **(opts or {}))
     else:
@@ -2471,7 +2471,7 @@ def case_failures(case, obs):
         else:
             st = steps[k] if 0 <= k < len(steps) else {"op": "base.build", "args": {}}
             fails.append(("ubsan:%s:%s:%s" % (st["op"], argclass(st), loc) + suffix, "UBSan: %s" % msg))
-    if obs.get("base") and obs["base"][0] == "exc" and case["base"]["kind"] == "valid":
+    if obs.get("base") and obs["base"][0] == "exc" and case["base"]["kind"] in ("valid", "shape"):
         fails.append(("base-build-failed", "valid base did not build: %r" % (obs["base"],)))
     for st, r in zip(steps, obs["steps"]):
         if r is None or r[0] == "skip":
@@ -3527,8 +3527,14 @@ class Sizes(Monitor):
                     if k * m != n:
                         shapes.append({"kind": "shape", "shape": "intervals", "n": k + 1, "m": m})
             shapes.append({"kind": "shape", "shape": "intervals", "n": 2, "m": n // 2 if n % 2 == 0 else n})
+            exact = n & (n - 1) == 0                 # the power of two itself gets the full menu in quick
+            if tier == "quick" and not exact:
+                shapes = [b for b in shapes if b["shape"] in ("star", "intervals")][:3]
+            elif tier == "quick":
+                shapes = [b for b in shapes if not (b["shape"] == "two_level" and b["n"] == n)]
             for base in shapes:
                 big = base["n"] * base.get("m", 1) > 300
+                lean = tier == "quick" and not exact
                 for which in ("all", "even", "odd", "all_but_one", "first_half", "rev"):
                     for opts in ({}, {"keep_unary": True}, {"filter_nodes": False, "keep_input_roots": True}):
                         if (tier == "quick" or big) and opts and which not in ("all", "even"):
@@ -3541,12 +3547,12 @@ class Sizes(Monitor):
                             if tier == "quick" and opts and which != "all":
                                 continue
                             yield {"base": base, "steps": [{"op": "big.ibd", "args": {"which": which, "opts": opts}}] + T}
-                for which in ("all", "even", "all_but_one"):
+                for which in ("all", "even", "all_but_one") if not lean else ("all",):
                     for anc in ("internal", "root"):
                         yield {"base": base, "steps": [{"op": "big.link_ancestors", "args": {"which": which, "anc": anc}}] + T}
-                for which in ("all", "rev", "even", "samples", "dup"):
+                for which in ("all", "rev", "even", "samples", "dup") if not lean else ("all", "dup"):
                     yield {"base": base, "steps": [{"op": "big.subset", "args": {"which": which, "opts": {}}}] + T}
-                for what in BIG_MISC:
+                for what in BIG_MISC if not lean else ("sort_shuffled", "keep_intervals", "map_mutations", "trees", "dump_load", "extend"):
                     if big and what in ("divmat", "union", "count_topologies", "extend_haplotypes"):
                         continue
                     if tier == "quick" and base["shape"] in ("two_level",) and what not in ("sort_shuffled", "dump_load", "trees", "variants"):
